@@ -28,6 +28,13 @@ func (db *DB) newReader(ctx context.Context, ptr pointer) (*Reader, error) {
 	if err != nil {
 		return nil, err
 	}
+	// Garbage collection may have moved the domain within its file since the caller
+	// obtained the pointer. It skips files with a registered handle, so the position
+	// read from here on stays valid for the lifetime of the reader.
+	if curr, ok := db.idx.getGE(ctx, ptr.Start); ok &&
+		curr.TimeRange == ptr.TimeRange && curr.fileKey == ptr.fileKey {
+		ptr = curr
+	}
 	reader := io.NewSectionReaderAtCloser(internal, int64(ptr.offset), int64(ptr.size))
 	return &Reader{ptr: ptr, ReaderAtCloser: reader}, nil
 }
